@@ -402,7 +402,7 @@ def check(tier, seed):
     nh = 3 if tier == "quick" else 12
     for i in range(nh):
         prune = i % 2 == 1
-        prior, _ = HX.gen_writes(rng, rng.randint(0, 6))
+        prior, _ = HX.gen_writes(rng, rng.randint(0, 6), fan=False)      # small stores: the state is digested after every call
         ops, outs, bad = run_hexary(prune, prior, rng)
         R.evaluations += len(ops) // 2
         for j in range(0, len(ops), 2):
